@@ -116,7 +116,7 @@ pub fn add_aligned_run(ts: &mut TileSet, rng: &mut Rng) {
 	ts.shape.push_str(&format!(" +z{z}:aligned-run-{side}x{side}"));
 }
 
-fn write_own(ts: &TileSet, target: &str, dir: &Path) -> Result<std::path::PathBuf, String> {
+pub fn write_own(ts: &TileSet, target: &str, dir: &Path) -> Result<std::path::PathBuf, String> {
 	let path = container_path(dir, target);
 	if target == "directory" {
 		let _ = std::fs::create_dir_all(&path);
@@ -126,10 +126,14 @@ fn write_own(ts: &TileSet, target: &str, dir: &Path) -> Result<std::path::PathBu
 	Ok(path)
 }
 
-fn write_foreign(ts: &TileSet, target: &str, dir: &Path, rng: &mut Rng) -> Result<std::path::PathBuf, String> {
+pub fn write_foreign(ts: &TileSet, target: &str, dir: &Path, rng: &mut Rng) -> Result<std::path::PathBuf, String> {
 	let path = container_path(dir, target);
 	match target {
-		"versatiles" => std::fs::write(&path, ivt::encode(ts, &ivt::EncOpts::random(rng), rng)).map_err(|e| e.to_string())?,
+		"versatiles" => {
+			let mut o = ivt::EncOpts::random(rng);
+			o.pooled_blobs = rng.chance(0.3);
+			std::fs::write(&path, ivt::encode(ts, &o, rng)).map_err(|e| e.to_string())?
+		}
 		"pmtiles" => {
 			let mut o = ipm::EncOpts::random(rng, ts.tiles.len());
 			if ts.shape.contains("aligned-run") {
@@ -156,17 +160,32 @@ fn write_foreign(ts: &TileSet, target: &str, dir: &Path, rng: &mut Rng) -> Resul
 	Ok(path)
 }
 
-fn open(path: &Path) -> Result<Box<dyn TilesReaderTrait>, String> {
+pub fn open(path: &Path) -> Result<Box<dyn TilesReaderTrait>, String> {
 	guard::block_on(get_reader(path.to_str().unwrap())).map_err(|e| format!("open {path:?}: {e:#}"))
 }
 
-fn gen_for(rng: &mut Rng, target: &str, max_tiles: usize, really: bool, unique: bool) -> TileSet {
+pub fn gen_for(rng: &mut Rng, target: &str, max_tiles: usize, really: bool, unique: bool) -> TileSet {
 	let opts = GenOpts { max_tiles, formats: pairs_for(target), really_compress: really, unique_payloads: unique, ..Default::default() };
 	gen::gen_tileset(rng, &opts)
 }
 
 /// tile sets that share format (and optionally differ in compression) with overlapping coverage
+/// metadata of one member of a family of sets; `layered`: every member describes the same vector layers (same ids,
+/// field names as real schemas have them, zoom ranges that differ from member to member)
+fn related_tilejson(i: usize, layered: bool) -> String {
+	if !layered {
+		return format!("{{\"tilejson\":\"3.0.0\",\"name\":\"s{i}\"}}");
+	}
+	let extra = ["\"name_en\":\"String\",", "\"admin_level\":\"Number\",\"name:de\":\"String\",", "\"is-tunnel\":\"Boolean\",", ""][i % 4];
+	format!(
+		"{{\"tilejson\":\"3.0.0\",\"name\":\"s{i}\",\"vector_layers\":[{{\"id\":\"roads\",\"fields\":{{{extra}\"kind\":\"String\"}},\"minzoom\":{},\"maxzoom\":{}}},{{\"id\":\"water_polygons\",\"fields\":{{\"way_area\":\"Number\"}}}}]}}",
+		i % 3,
+		9 + 2 * i
+	)
+}
+
 pub fn related_sets(rng: &mut Rng, n: usize, max_tiles: usize, mixed_comp: bool, fmt: Option<TileFormat>) -> Vec<TileSet> {
+	let layered = rng.chance(0.3);
 	let format = fmt.unwrap_or(*rng.pick(&[TileFormat::PNG, TileFormat::JPG, TileFormat::BIN, TileFormat::JSON, TileFormat::WEBP]));
 	let base_comp = *rng.pick(&comp::ALL);
 	let levels: Vec<u8> = {
@@ -198,7 +217,7 @@ pub fn related_sets(rng: &mut Rng, n: usize, max_tiles: usize, mixed_comp: bool,
 				let (x, y) = (gx + ox, gy + oy);
 				tiles.insert((z, x, y), comp::compress(format!("s{i}:{z}/{x}/{y};").as_bytes(), comp));
 			}
-			out.push(TileSet { format, comp, tiles, tilejson: format!("{{\"tilejson\":\"3.0.0\",\"name\":\"s{i}\"}}"), shape: format!("jigsaw#{i}"), really_compressed: true });
+			out.push(TileSet { format, comp, tiles, tilejson: related_tilejson(i, layered), shape: format!("jigsaw#{i}"), really_compressed: true });
 		}
 		return out;
 	}
@@ -238,7 +257,7 @@ pub fn related_sets(rng: &mut Rng, n: usize, max_tiles: usize, mixed_comp: bool,
 			let (ax, ay) = anchors[&z];
 			tiles.insert((z, ax, ay), comp::compress(format!("s{i}:{z}/{ax}/{ay};").as_bytes(), comp));
 		}
-		out.push(TileSet { format, comp, tiles, tilejson: format!("{{\"tilejson\":\"3.0.0\",\"name\":\"s{i}\"}}"), shape: format!("related#{i}"), really_compressed: true });
+		out.push(TileSet { format, comp, tiles, tilejson: related_tilejson(i, layered), shape: format!("related#{i}"), really_compressed: true });
 	}
 	out
 }
